@@ -59,6 +59,20 @@ class Arr:
     return Arr([items[ix[axis]].at(ix[:axis] + ix[axis + 1:])
                 for ix in itertools.product(*[range(s) for s in shp])], shp)
 
+  def moveaxis(self, src, dst):
+    src %= self.ndim
+    dst %= self.ndim
+    order = [d for d in range(self.ndim) if d != src]
+    order.insert(dst, src)                  # order[j] = old axis placed at new j
+    shp = tuple(self.shape[d] for d in order)
+    out = []
+    for ix in itertools.product(*[range(s) for s in shp]):
+      old = [0] * self.ndim
+      for j, d in enumerate(order):
+        old[d] = ix[j]
+      out.append(self.at(tuple(old)))
+    return Arr(out, shp)
+
   def _bin(self, o, f):
     if isinstance(o, Arr):
       assert o.shape == self.shape
@@ -197,3 +211,26 @@ def ref_scan(fn, in_axes, out_axes, length=None, reverse=False, unroll=1,
     return bout, carry, jax.tree_util.tree_unflatten(
         otd, stack_all([y[0] for y in ys], oaxes))
   return g
+
+
+def ref_lax_scan(f, init, xs=None, length=None, reverse=False, unroll=1,
+                 _split_transpose=False):
+  """jax.lax.scan: the documented loop over the leading axis of every leaf of xs"""
+  leaves, td = jax.tree_util.tree_flatten(xs)
+  n = length if length is not None else leaves[0].shape[0]
+  carry, ys = init, []
+  for i in (range(n - 1, -1, -1) if reverse else range(n)):
+    carry, y = f(carry, jax.tree_util.tree_unflatten(td, [_take(l, i, 0)
+                                                          for l in leaves]))
+    ys.append(y)
+  if reverse:
+    ys = ys[::-1]
+  fl = [jax.tree_util.tree_flatten(y) for y in ys]
+  stacked = stack_all([f_[0] for f_ in fl], [0] * len(fl[0][0]))
+  return carry, jax.tree_util.tree_unflatten(fl[0][1], stacked)
+
+
+def moveaxis(x, src, dst):
+  if isinstance(x, Arr):
+    return x.moveaxis(src, dst)
+  return np.moveaxis(np.asarray(x), src, dst)
